@@ -321,9 +321,9 @@ fn main() {
 	let mut r = 0u64;
 	let mt_props = ["C04", "C07", "C10"].contains(&prop.as_str());
 	while !budget.exhausted() && (budget.fraction() < 0.9) {
-		if mt_props && r % 5 == 4 {
+		if mt_props && r % 80 == 79 {
 			// concurrent senders on a multi-thread runtime, real clock (invariant oracles only)
-			mt::run_one(&prop, &mut rng, &mut rep, r == 4);
+			mt::run_one(&prop, &mut rng, &mut rep, r == 79);
 		} else {
 			let sc = gen::random(&prop, &mut rng, args.thorough());
 			run_one(&prop, &sc, &mut rep, true, r < 2);
